@@ -12,7 +12,7 @@ class Eng(prod.PRODEngine):
 
 
 def shard(ctx):
-    drive(ctx, Eng, ctx.n(16 * 80, 16 * 3000), min_steps=8, max_steps=70, props={"C01"})
+    drive(ctx, Eng, ctx.n(16 * 250, 16 * 5000), min_steps=8, max_steps=70, props={"C01"})
 
 
 def replay(case, ctx):
